@@ -78,10 +78,40 @@ def run(ctx):
             continue
         sl = lib.slice_back(fn, lib.rv_operands(st['rv']), through_calls=False, at=(st['bb'], st['idx']))
         ctx.evaluations += 1
-        if sl.has_field('Header', 'wal_offset') or ({'Add', 'AddWithOverflow'} & sl.ops):
-            ctx.ok('FLOW-C42b', fn, 'new payload_offset = running cursor (starts at wal_offset + wal_size)', line=st['line'])
-        else:
+        if not (sl.has_field('Header', 'wal_offset') or ({'Add', 'AddWithOverflow'} & sl.ops)):
             ctx.bad('FLOW-C42b', fn, 'new payload_offset does not come from the write cursor', line=st['line'], detail='offset-source')
+            continue
+        # the offset is the cursor *before* it is advanced past this payload: on the way from the write to this store
+        # the cursor local must not have been advanced
+        cur = {op_place(o).l for o in lib.rv_operands(st['rv']) if op_place(o) is not None and not op_place(o).p}
+        cur |= set().union(*[lib.root_of(fn, l) for l in cur]) if cur else set()
+        d = lib.defs(fn)
+
+        def is_add(rv):
+            if rv['k'] == 'bin':
+                return rv['op'] in ('Add', 'AddWithOverflow')
+            if rv['k'] == 'use':
+                q = op_place(rv['a'])
+                if q is not None and q.p and q.fields() in (('0',), (0,)):
+                    return any(x['kind'] == 'stmt' and x['rv']['k'] == 'bin' and x['rv']['op'] in ('Add', 'AddWithOverflow') for x in d.get(q.l, []))
+            return False
+        adv = [(bb, i) for bb, i, s2 in fn.stmts() if s2['lhs']['l'] in cur and not s2['lhs'].get('p') and len(d.get(s2['lhs']['l'], [])) >= 2 and is_add(s2['rv']) and
+               any(w.bb in fn.reachable(bb) and bb in fn.reachable(w.bb) for w in writes)]
+        early = False
+        for w in writes:
+            sbw, _ = fn.success_block(w)
+            if sbw is None or st['bb'] not in fn.reachable(sbw):
+                continue
+            for abb, ai in adv:
+                # is the advance on every path from the write to the store (or before it in the same block)?
+                if abb == st['bb']:
+                    early = early or ai < st['idx']
+                elif st['bb'] not in fn.reachable(sbw, avoid={abb}) and abb in fn.reachable(sbw):
+                    early = True
+        if early:
+            ctx.bad('FLOW-C42b', fn, 'payload_offset is taken from the cursor after it was advanced past the payload: the frame points at the end of its bytes', line=st['line'], detail='offset-after-advance')
+        else:
+            ctx.ok('FLOW-C42b', fn, 'new payload_offset = running cursor at the write (starts at wal_offset + wal_size, advanced afterwards)', line=st['line'])
     # ---- c
     cm = fn.calls_to('Memvid::commit')
     rb = fn.calls_to('Memvid::rebuild_indexes')
